@@ -295,7 +295,23 @@ fn run(t: &Tape, want_desc: bool) -> CaseResult {
                 log.push(json!({"state": if transferred { "after transfer" } else { "before transfer" }, "message": MESSAGES[m], "twin": cell.twin, "twin_succeeded": twin_ok}));
             }
             let no_authority_exists = cell.authorised.is_empty();
-            for r in &roles {
+            // addresses that merely resemble an AUTHORISED sender of this very cell (extended, shortened): a
+            // comparison by prefix or by common length would confuse them. (No re-cased variant: the chain
+            // API treats the casings of one address as the same account - cosmwasm's MockApi lower-cases on
+            // canonicalisation like bech32 - so an upper-cased sender IS the authorised account.)
+            let mut look: Vec<Role> = vec![];
+            for a in &cell.authorised {
+                let mut vars = vec![format!("{}0", a), format!("{}x", a)];
+                if a.len() > 3 {
+                    vars.push(a[..a.len() - 1].to_string());
+                }
+                for v in vars {
+                    if v != *a && !look.iter().any(|r: &Role| r.addr == v) {
+                        look.push(Role { name: "authorised-lookalike", addr: v, via_proxy: false });
+                    }
+                }
+            }
+            for r in roles.iter().chain(look.iter()) {
                 let effective = if r.via_proxy { base.proxy.to_string() } else { r.addr.clone() };
                 if cell.authorised.contains(&effective) {
                     classes.push(label(m, r.name, "authorised"));
@@ -392,7 +408,7 @@ pub fn suites() -> Vec<Suite> {
     }]
 }
 
-pub const RULE: &str = "case = generated world (1-2 pairs of generated kinds, liquidity seeded, half of the provider's LP tokens donated to the pair so that a forged withdraw hook has something to burn, router funded) x {before, after UpdateConfig{owner: actor3}} x ALL 9 messages (factory UpdateConfig / CreatePair / AddNativeTokenDecimals / MigratePair; pair UpdateNativeTokenDecimals / Receive(WithdrawLiquidity) / Receive(Swap); router ExecuteSwapOperation / AssertMinimumReceive) with generated arguments x ALL caller roles (current owner, former owner(s) - a third of the transferred states move ownership on a second time -, addresses that merely resemble the owner's, stranger, fresh address, factory, router, every pair, every LP token, every asset token, the rogue cw20 contract both impersonated and through its forwarding entry point; additionally every pair/router message is smuggled as the payload of the contract's public cw20 Receive entry by a stranger, the rogue contract, an asset token and an LP token, with the envelope's free sender field set to the authorised address or to the caller); a cell is judged when the authorised twin succeeded on a fork of the same state (or when no caller can be authorised at all): the role under test must fail and leave the chain byte-identical; non-trivial = a case with at least one judged cell; distinct = hash of the tape; the class histogram lists every cell with its count";
+pub const RULE: &str = "case = generated world (1-2 pairs of generated kinds, liquidity seeded, half of the provider's LP tokens donated to the pair so that a forged withdraw hook has something to burn, router funded) x {before, after UpdateConfig{owner: actor3}} x ALL 9 messages (factory UpdateConfig / CreatePair / AddNativeTokenDecimals / MigratePair; pair UpdateNativeTokenDecimals / Receive(WithdrawLiquidity) / Receive(Swap); router ExecuteSwapOperation / AssertMinimumReceive) with generated arguments x ALL caller roles (current owner, former owner(s) - a third of the transferred states move ownership on a second time -, addresses that merely resemble the owner's, and for every cell addresses that merely resemble an authorised sender of that cell (extended by a character, shortened by one), stranger, fresh address, factory, router, every pair, every LP token, every asset token, the rogue cw20 contract both impersonated and through its forwarding entry point; additionally every pair/router message is smuggled as the payload of the contract's public cw20 Receive entry by a stranger, the rogue contract, an asset token and an LP token, with the envelope's free sender field set to the authorised address or to the caller); a cell is judged when the authorised twin succeeded on a fork of the same state (or when no caller can be authorised at all): the role under test must fail and leave the chain byte-identical; non-trivial = a case with at least one judged cell; distinct = hash of the tape; the class histogram lists every cell with its count";
 pub const ASSUMPTIONS: &[&str] = &[
     "cw-multi-test lets any address be the sender of a message: contract roles are exercised by impersonation, the rogue contract additionally through its own Forward entry point",
     "for pair.Receive(Swap) every cw20 asset of the pair counts as authorised by the statement; whether the hook's named asset matches the sender is C02's subject",
